@@ -191,23 +191,7 @@ theorem arm_input {c : List Id} {tag : Tag} {tok : Token} (ha : AttrsOk tag.attr
       let __do_lift ← contextIsSelect "rules.rs:823"
       if __do_lift = true then do
           let _ ← unexpected
-          let __do_lift ← inScopeNamed defaultScope "select"
-          if __do_lift = true then do
-              let _ ← unexpected
-              let _ ← popUntilNamed "select"
-              reconstructActiveFormattingElements
-              let _ ← insertAndPopElementFor tag
-              if (!isTypeHidden tag) = true then do
-                  setFramesetOk false
-                  pure ProcessResult.doneAckSelfClosing
-                else pure ProcessResult.doneAckSelfClosing
-            else do
-              reconstructActiveFormattingElements
-              let _ ← insertAndPopElementFor tag
-              if (!isTypeHidden tag) = true then do
-                  setFramesetOk false
-                  pure ProcessResult.doneAckSelfClosing
-                else pure ProcessResult.doneAckSelfClosing
+          pure ProcessResult.done
         else do
           let __do_lift ← inScopeNamed defaultScope "select"
           if __do_lift = true then do
